@@ -18,6 +18,19 @@ for p in props:
         continue
     mod = importlib.import_module("snelcheck.rules." + pid)
     expl = " ".join(mod.EXPLANATION.split())
+    # the rule instances as armed today (id [kind] claim), read off the rule module itself
+    import re as _re
+    src = open(path).read()
+    seen_ids, rl = set(), []
+    for rid, kind, target, claim in _re.findall(r'ctx\.run\("(C\d\d(?:/C\d\d)?\.[a-z0-9]+)",\s*"([^"]+)",\s*"[^"]*",\s*"([^"]+)"()', src):
+        pass
+    for m_ in _re.finditer(r'ctx\.run\("([^"]+)",\s*"([^"]+)",\s*"([^"]+)",\s*"([^"]+)"', src):
+        rid, kind, target, claim = m_.groups()
+        if rid in seen_ids:
+            continue
+        seen_ids.add(rid)
+        rl.append("%s [%s] %s" % (rid, kind, claim))
+    rules_txt = " Rules armed: " + "; ".join(rl) + "."
     checks.append({
         "property_id": pid,
         "quick_cmd": "./check %s" % pid,
@@ -28,7 +41,7 @@ for p in props:
         "level_claimed": {
             "category": "other",
             "text": "Static analysis over rustc MIR (all CFG paths of the anchor functions / whole-crate call graph): "
-                    "decides structural necessary conditions of the property, not the behaviour itself. " + expl[:1800],
+                    "decides structural necessary conditions of the property, not the behaviour itself. " + expl[:1800] + rules_txt,
             "design_ref": "DESIGN.md §4 " + pid,
         },
         "level_note": "Trusted: rustc 1.97-nightly front-end + MIR construction, the snelcheck fact extractor, CHA over-approximation of dyn calls, "
